@@ -12,27 +12,35 @@ CFG = dict(
         # gluing: arbitrary box, arbitrary sign pattern, boundary layer outside
         "march_closed_balanced", "cells_glue_face", "cell_edges_nodup",
         "table_segs_unit", "table_shared_edges", "box_edges_nodup", "march_closed", "march_closed_exactly_one",
-        # weld
-        "weld_preserves_balance", "weld_nondegenerate",
+        # weld, and transfer from lattice-edge ids to the welded mesh
+        "weld_preserves_balance", "weld_nondegenerate", "weld_preserves_nodup", "march_weld_balanced", "march_weld_closed",
         # block storage
         "blockFetch_eq_global", "fetchCell_eq_global", "skipped_cells_outside", "addField_axis_partition",
         "addField_allocates_neighbourhood",
         # interpolation / isosurface
         "interp_between", "interp_on_segment", "interp_symmetric", "vertex_near_isosurface",
+        "table_tri_edges_lt", "emitted_vertex_on_crossing_edge", "emitted_vertex_near_isosurface",
     ],
+    # reading aid (ignored by ./check): the closedness result is ONE result under four names, and several listed
+    # theorems are intermediate lemmas of it rather than independent clauses of the property
+    one_result={"closedness in lattice-edge ids": ["march_closed_balanced", "box_edges_nodup", "march_closed", "march_closed_exactly_one"]},
+    helper_theorems=["cells_glue_face", "cell_edges_nodup", "table_segs_unit", "table_shared_edges", "table_case_edges_nodup",
+                     "table_canon_no_antiparallel", "table_tri_edges_lt", "fetchCell_eq_global", "addField_allocates_neighbourhood",
+                     "march_weld_balanced"],
     streams=[dict(name="c09", n=dict(quick=8, thorough=80), timeout=dict(quick=600, thorough=3600))],
     trusted=T_COMMON + [
         "engine F extractor /verif/go/facts/c09.go (go/parser; every unexpected AST shape is an error)",
         "driver's Float transcription of sdf.Sphere/Box/Line and of 'union = min' (used only by the near_iso oracle)",
-        "driver's n log n evaluation of Closed (cross-checked against the quadratic specification predicate on meshes <= 150 triangles on every run)",
+        "driver's n log n evaluation of Closed and of Balanced (cross-checked against the quadratic specification predicate on meshes <= 150 triangles on every run)",
     ],
     residue=[
         "outward orientation / positive enclosed volume: decided per run by c09.holds.outward (signed volume, Float), no theorem",
-        "float-keyed vertex sharing (LookupOrAdd at 1e-4, WeldByFloat3Attribute at 1e-3): theorems identify a vertex with its lattice edge (exact arithmetic, interp_symmetric); that rounded float keys realise exactly this identification (no pinching, cell size >> 1e-3) is observed on the final mesh by the oracles; weld_preserves_balance covers any merge",
-        "march_closed (balanced AND no directed edge twice = matched by exactly one) is a theorem at the level of lattice-edge ids, for a box of cells; the step from lattice-edge ids to the float vertex ids of the real mesh is the float-keyed sharing above",
+        "TRANSFER from lattice-edge ids to the real mesh: the Balanced half transfers unconditionally (weld_preserves_balance / march_weld_balanced: any vertex identification, dropping triangles with two equal corners); 'exactly one' is PROVED to transfer only under the hypothesis that the float vertex map is injective on the sign-changing lattice edges (march_weld_closed, weld_preserves_nodup) - i.e. when no two distinct sign-changing lattice edges produce vertices in one weld cell; the hypothesis is sufficient, not necessary, it is NOT a theorem and it is FALSE in general: a sample EQUAL to the cutoff gives interpolation parameter 0/1, so up to six lattice edges produce the same corner position. Observed: lattice-aligned single shapes, shapes touching at a point/edge/corner stay closed (strict oracle c09.holds.closed on the lattice-aligned classes, both tiers, single block and across seams); two inside regions separated only by samples equal to the cutoff (two boxes touching at a lattice face) are welded into coincident sheets: balanced, but 32 directed edges matched twice = known finding C09-touching-at-cutoff (op c09.holds.closed_touching_at_cutoff_witness, replayed every run; c09.holds.balanced is true on it)",
+        "that LookupOrAdd (1e-4) / WeldByFloat3Attribute (1e-3) give ONE id to the two float computations of one lattice edge (interp_symmetric is the exact-arithmetic statement) and do not merge distinct lattice edges when cell size >> 1e-3 and no sample is within float noise of the cutoff: observed by the oracles on the final mesh, not proved",
+        "march_closed is a theorem about lattice-edge ids over a box of cells (see one_result); see the TRANSFER item for what it says about the real mesh",
         "that the cells the real marcher visits differ from a bounding box only by all-outside cells: skipped_cells_outside + empty row 0, not assembled into one statement with march_closed_balanced",
         "canvasPosToChunkPos computes floor(x/100) through float64 (exact for |x| < 2^46): assumed, tied by the grid correspondence at negative coordinates",
-        "vertex within one cell of the TRUE isosurface: vertex_near_isosurface (IVT along the lattice edge, f continuous) + interp_between are theorems; that the analytic field changes sign along the very edge each output vertex lies on is the per-run oracle c09.holds.near_iso",
+        "vertex within one cell of the TRUE isosurface: emitted_vertex_near_isosurface assembles table_edges_cross + case index + interp_between + interp_on_segment + IVT for every vertex the MODEL emits (lattice ids, exact arithmetic), under the hypothesis that the stored samples are the values of a field continuous along the edge; that the canvas stores exactly the analytic field's samples and that the real (float, welded) output vertex is that interpolated point is the per-run oracle c09.holds.near_iso",
         "IEEE rounding of interpolateVerts; Float2/Float3 canvases, texture helpers, AddFieldParallel*/MarchParallel (C10) out of scope",
         "oracle lines are compiled Lean predicates applied to implementation output: evidence, not proof",
     ],
